@@ -45,6 +45,14 @@
 {
  'out': 'cxx/sop_c.c',
  'pieces': [
+  # anchors: the hand-written layout glue below stands for exactly these declarations; when one of them changes the extraction stops (exit 2)
+  {'op': 'glue', 'text': '/* layout declarations of igris/container/static_object_pool.h that the C glue below transcribes (anchors):'},
+  {'op': 'lines', 'file': 'igris/container/static_object_pool.h', 'regex': r'^\s*constexpr static size_t elsize\(\) \{ return std::max\(sizeof\(T\), sizeof\(slist_head\)\); \}\s*$', 'min': 1},
+  {'op': 'lines', 'file': 'igris/container/static_object_pool.h', 'regex': r'^\s*constexpr static size_t elalign\(\) \{ return std::max\(alignof\(T\), alignof\(slist_head\)\); \}\s*$', 'min': 1},
+  {'op': 'lines', 'file': 'igris/container/static_object_pool.h', 'regex': r'^\s*std::array<char, elsize\(\)> data alignas\(elalign\(\)\);\s*$', 'min': 1},
+  {'op': 'lines', 'file': 'igris/container/static_object_pool.h', 'regex': r'^\s*struct pool_head head = POOL_HEAD_INIT\(head\);\s*$', 'min': 1},
+  {'op': 'lines', 'file': 'igris/container/static_object_pool.h', 'regex': r'^\s*std::array<storage_type, Capacity> storage;\s*$', 'min': 1},
+  {'op': 'glue', 'text': '*/'},
   {'op': 'glue', 'text': '#include <string.h>\n#include "elem_lifetime.h"\n'
                          'typedef struct C10_T { long payload; ELEM e; } C10_T;\n'
                          'static inline void C10_T_construct(C10_T *p, int v) { p->payload = v; ELEM_construct_value(&p->e, v); }\n'
